@@ -5,7 +5,7 @@ check). Suite sizes are (quick, thorough) numbers of cases."""
 
 TRUSTED_BASE = [
     "Lean 4.33 kernel; axioms limited to propext, Classical.choice, Quot.sound (audited per theorem on every run); no native_decide / bv_decide / sorry",
-    "statements: lean/ERP/Spec/* and the property files lean/ERP/Properties/*",
+    "statements: lean/ERP/Spec/* and the property files lean/ERP/Properties/* (the Lean reference printer and reference reader are cross-checked against the Python ones of the oracles by the printer / text suites)",
     "translator harness/translate.py (regexes, constants, handler/event tables regenerated from /repo on every run)",
     "correspondence harness (harness/suites.py, corr.py): the Float instance of the model is compared with the implementation on generated operation sequences, outputs and full state digest after every operation; differences its generators never produce are not seen",
     "CPython float()/repr()/math.* and Lean's Float agreeing on + - * / sqrt sin cos atan2 (checked continuously by the suites, not proved)",
@@ -22,18 +22,19 @@ SUITES = {
     "arc": ("arc_case", 600, 12000),
     "plugin": ("gen_plugin_case", 150, 4000),
     "stream": ("gen_stream_case", 200, 5000),
+    "printer": ("printer_case", 150, 5000),
 }
 
 PROPS = {
-    "C01": dict(module="ERP.Properties.C01", suites=["filter", "region", "arc"], oracle="filter",
+    "C01": dict(module="ERP.Properties.C01", suites=["printer", "filter", "region", "arc"], oracle="filter",
                 theorems=[]),
     "C02": dict(module="ERP.Properties.C02", suites=["filter"], oracle="filter", theorems=[]),
-    "C03": dict(module="ERP.Properties.C03", suites=["filter", "arc"], oracle="filter", theorems=[]),
-    "C04": dict(module="ERP.Properties.C04", suites=["filter"], oracle="filter", theorems=[]),
-    "C05": dict(module="ERP.Properties.C05", suites=["filter", "text"], oracle="filter", theorems=[]),
+    "C03": dict(module="ERP.Properties.C03", suites=["printer", "filter", "arc"], oracle="filter", theorems=[]),
+    "C04": dict(module="ERP.Properties.C04", suites=["printer", "filter"], oracle="filter", theorems=[]),
+    "C05": dict(module="ERP.Properties.C05", suites=["printer", "filter", "text"], oracle="filter", theorems=[]),
     "C06": dict(module="ERP.Properties.C06", suites=["filter", "plugin"], oracle="filter", theorems=[]),
     "C07": dict(module="ERP.Properties.C07", suites=["text", "filter"], oracle="filter", theorems=[]),
-    "C08": dict(module="ERP.Properties.C08", suites=["filter", "region"], oracle="c08", theorems=[]),
+    "C08": dict(module="ERP.Properties.C08", suites=["printer", "filter", "region"], oracle="c08", theorems=[]),
     "C09": dict(module="ERP.Properties.C09Text", suites=["filter", "arc", "stream"], oracle="filter",
                 theorems=[]),
     "C10": dict(module="ERP.Properties.C10", suites=["plugin"], oracle="c10", theorems=[]),
